@@ -29,3 +29,203 @@ fn c03_wrap_limits() {
     kani::cover!(true, "end of harness reached");
     std::mem::forget(wc);
 }
+
+// ------------------------------------------------------------------------------------------------
+// Re-alignment of wrapped rows (C07: "every hunk line appears exactly once per side, in order,
+// and paired lines share a row"): the real `wrap_minusplus_block` + `wrap_if_too_long` with the
+// text-level `wrap_line` replaced by a stub that returns a symbolic number (1..=3) of rows per
+// line - the index bookkeeping that turns a line alignment into a row alignment.
+mod wrap_block {
+    use super::super::*;
+    use std::mem::MaybeUninit;
+    use std::ptr::addr_of_mut;
+
+    static mut ROWS: [usize; 6] = [1; 6];
+    static mut CALLS: usize = 0;
+
+    // called twice per line (syntax sections, then diff sections), lines in alignment order
+    fn stub_wrap_line<'a, I, S>(_config: &'a Config, _line: I, _line_width: usize, _fill_style: &S, _inline_hint_style: &Option<S>) -> Vec<LineSections<'a, S>>
+    where
+        I: IntoIterator<Item = (S, &'a str)> + std::fmt::Debug,
+        <I as IntoIterator>::IntoIter: DoubleEndedIterator,
+        S: Copy + Default + std::fmt::Debug,
+    {
+        let k = unsafe {
+            let k = ROWS[CALLS / 2];
+            CALLS += 1;
+            k
+        };
+        let mut v: Vec<LineSections<'a, S>> = Vec::with_capacity(3);
+        v.push(Vec::new());
+        if k >= 2 {
+            v.push(Vec::new());
+        }
+        if k >= 3 {
+            v.push(Vec::new());
+        }
+        std::mem::forget(_line);
+        v
+    }
+
+    fn cfg(c: &mut MaybeUninit<Config>) -> &Config {
+        let p = c.as_mut_ptr();
+        let plain = Style::new();
+        unsafe {
+            addr_of_mut!((*p).minus_style).write(plain);
+            addr_of_mut!((*p).plus_style).write(plain);
+            addr_of_mut!((*p).null_syntect_style).write(SyntectStyle::default());
+            addr_of_mut!((*p).inline_hint_style).write(plain);
+            addr_of_mut!((*p).wrap_config).write(WrapConfig {
+                left_symbol: String::new(),
+                right_symbol: String::new(),
+                right_prefix_symbol: String::new(),
+                use_wrap_right_permille: 0,
+                max_lines: 4,
+                inline_hint_syntect_style: SyntectStyle::default(),
+            });
+            &*p
+        }
+    }
+
+    fn rows() -> usize {
+        let k: usize = kani::any();
+        kani::assume(k >= 1 && k <= 3);
+        k
+    }
+
+    // expected row alignment for one aligned pair/single, appended to `exp` (fixed-size log)
+    fn expect(exp: &mut [(Option<usize>, Option<usize>); 12], n: &mut usize, l0: usize, kl: usize, r0: usize, kr: usize) {
+        let big = if kl > kr { kl } else { kr };
+        let mut j = 0;
+        while j < 3 {
+            if j < big {
+                let a = if j < kl { Some(l0 + j) } else { None };
+                let b = if j < kr { Some(r0 + j) } else { None };
+                exp[*n] = (a, b);
+                *n += 1;
+            }
+            j += 1;
+        }
+    }
+
+    fn is_first(s: &State, left: bool) -> bool {
+        if left {
+            matches!(s, State::HunkMinus(DiffType::Unified, None))
+        } else {
+            matches!(s, State::HunkPlus(DiffType::Unified, None))
+        }
+    }
+    fn is_cont(s: &State, left: bool) -> bool {
+        if left {
+            matches!(s, State::HunkMinusWrapped)
+        } else {
+            matches!(s, State::HunkPlusWrapped)
+        }
+    }
+
+    /// Two aligned pairs, each of the four lines wrapping to 1..=3 rows.
+    #[kani::proof]
+    #[kani::unwind(8)]
+    #[kani::stub(wrap_line, stub_wrap_line)]
+    fn c07_wrap_block_two_pairs() {
+        let mut mem = MaybeUninit::<Config>::uninit();
+        let config = cfg(&mut mem);
+        let (kl0, kr0, kl1, kr1) = (rows(), rows(), rows(), rows());
+        unsafe {
+            ROWS[0] = kl0;
+            ROWS[1] = kr0;
+            ROWS[2] = kl1;
+            ROWS[3] = kr1;
+            CALLS = 0;
+        }
+        let syntax = MinusPlus::new(vec![Vec::new(), Vec::new()], vec![Vec::new(), Vec::new()]);
+        let diff = MinusPlus::new(vec![Vec::new(), Vec::new()], vec![Vec::new(), Vec::new()]);
+        let alignment = [(Some(0), Some(0)), (Some(1), Some(1))];
+        let line_width = MinusPlus::new(10usize, 10usize);
+        let wrapinfo = MinusPlus::new(vec![true, true], vec![true, true]);
+        let (new_alignment, new_states, new_syntax, new_diff) = wrap_minusplus_block(config, syntax, diff, &alignment, &line_width, &wrapinfo);
+
+        let mut exp = [(None, None); 12];
+        let mut n = 0usize;
+        expect(&mut exp, &mut n, 0, kl0, 0, kr0);
+        expect(&mut exp, &mut n, kl0, kl1, kr0, kr1);
+        assert!(new_alignment.len() == n, "number of rows: max(left,right) per aligned pair");
+        let mut i = 0;
+        while i < 6 {
+            if i < n {
+                assert!(new_alignment[i] == exp[i], "row alignment: fragments of paired lines share rows, the longer side continues alone, indices ascend without gaps or repeats");
+            }
+            i += 1;
+        }
+        assert!(new_syntax[Left].len() == kl0 + kl1 && new_syntax[Right].len() == kr0 + kr1, "every fragment of every line is kept (syntax sections)");
+        assert!(new_diff[Left].len() == kl0 + kl1 && new_diff[Right].len() == kr0 + kr1, "every fragment of every line is kept (diff sections)");
+        assert!(new_states[Left].len() == kl0 + kl1 && new_states[Right].len() == kr0 + kr1, "one state per row");
+        let mut i = 0;
+        while i < 6 {
+            if i < kl0 + kl1 {
+                let first = i == 0 || i == kl0;
+                assert!(if first { is_first(&new_states[Left][i], true) } else { is_cont(&new_states[Left][i], true) }, "left: first row of a line is a minus line, the others are continuation rows");
+            }
+            if i < kr0 + kr1 {
+                let first = i == 0 || i == kr0;
+                assert!(if first { is_first(&new_states[Right][i], false) } else { is_cont(&new_states[Right][i], false) }, "right: first row of a line is a plus line, the others are continuation rows");
+            }
+            i += 1;
+        }
+        kani::cover!(kl0 == 3 && kr0 == 1 && kl1 == 1 && kr1 == 3, "uneven wrap in both pairs, opposite directions");
+        kani::cover!(kl0 == 1 && kr0 == 1 && kl1 == 1 && kr1 == 1, "nothing wraps");
+        kani::cover!(true, "end of harness reached");
+        std::mem::forget(new_alignment);
+        std::mem::forget(new_states);
+        std::mem::forget(new_syntax);
+        std::mem::forget(new_diff);
+        std::mem::forget(wrapinfo);
+    }
+
+    /// An unpaired removed line, a pair, an unpaired added line.
+    #[kani::proof]
+    #[kani::unwind(8)]
+    #[kani::stub(wrap_line, stub_wrap_line)]
+    fn c07_wrap_block_mixed() {
+        let mut mem = MaybeUninit::<Config>::uninit();
+        let config = cfg(&mut mem);
+        let (kl0, kl1, kr0, kr1) = (rows(), rows(), rows(), rows());
+        unsafe {
+            // call order: L0 | L1, R0 | R1
+            ROWS[0] = kl0;
+            ROWS[1] = kl1;
+            ROWS[2] = kr0;
+            ROWS[3] = kr1;
+            CALLS = 0;
+        }
+        let syntax = MinusPlus::new(vec![Vec::new(), Vec::new()], vec![Vec::new(), Vec::new()]);
+        let diff = MinusPlus::new(vec![Vec::new(), Vec::new()], vec![Vec::new(), Vec::new()]);
+        let alignment = [(Some(0), None), (Some(1), Some(0)), (None, Some(1))];
+        let line_width = MinusPlus::new(10usize, 10usize);
+        let wrapinfo = MinusPlus::new(vec![true, true], vec![true, true]);
+        let (new_alignment, new_states, new_syntax, new_diff) = wrap_minusplus_block(config, syntax, diff, &alignment, &line_width, &wrapinfo);
+        let mut exp = [(None, None); 12];
+        let mut n = 0usize;
+        expect(&mut exp, &mut n, 0, kl0, 0, 0);
+        expect(&mut exp, &mut n, kl0, kl1, 0, kr0);
+        expect(&mut exp, &mut n, kl0 + kl1, 0, kr0, kr1);
+        assert!(new_alignment.len() == n, "number of rows");
+        let mut i = 0;
+        while i < 9 {
+            if i < n {
+                assert!(new_alignment[i] == exp[i], "row alignment for unpaired and paired lines");
+            }
+            i += 1;
+        }
+        assert!(new_syntax[Left].len() == kl0 + kl1 && new_syntax[Right].len() == kr0 + kr1, "every fragment kept");
+        assert!(new_diff[Left].len() == kl0 + kl1 && new_diff[Right].len() == kr0 + kr1, "every fragment kept (diff)");
+        assert!(new_states[Left].len() == kl0 + kl1 && new_states[Right].len() == kr0 + kr1, "one state per row");
+        kani::cover!(kl0 == 2 && kl1 == 3 && kr0 == 1 && kr1 == 2, "a particular mixed shape");
+        kani::cover!(true, "end of harness reached");
+        std::mem::forget(new_alignment);
+        std::mem::forget(new_states);
+        std::mem::forget(new_syntax);
+        std::mem::forget(new_diff);
+        std::mem::forget(wrapinfo);
+    }
+}
